@@ -32,7 +32,7 @@ def main():
     out = os.path.join(VERIF, "seeded", name)
     os.makedirs(out, exist_ok=True)
     for f in ("patch.diff", "seed_demo.rs", "notes.md"):
-        if os.path.exists(os.path.join(src, f)):
+        if os.path.exists(os.path.join(src, f)) and os.path.abspath(os.path.join(src, f)) != os.path.abspath(os.path.join(out, f)):
             shutil.copy(os.path.join(src, f), os.path.join(out, f))
     if not os.path.exists(WT):
         rc, o = sh("git -C /repo worktree add -f --detach %s HEAD" % WT)
